@@ -105,6 +105,7 @@ def h_replay(ctx, pname, rec, replays):
     ctx.fact(len(cg.functionList) == n0, 'nothing is recorded while recording is off')
     ctx.fp('graph', [f.func.__name__ for f in fl])
     # (b) replays
+    handed_out = []
     for k, kind in enumerate(replays):
         kind = tuple(kind) if not isinstance(kind, str) else kind
         arg2, X = make_value(ctx, prog, kind, 'x%d_' % k)
@@ -120,7 +121,13 @@ def h_replay(ctx, pname, rec, replays):
         ctx.fact(np.shape(a) == np.shape(b), 'replay %d %s shape %s vs %s' % (k, kind, np.shape(a), np.shape(b)))
         if np.shape(a) == np.shape(b):
             ctx.eq(a, b, 'replay %d %s == direct evaluation' % (k, kind))
+            handed_out.append((k, kind, out, np.array(a, dtype=object).copy(), xin, np.array(plain(X) if kind == 'nd' else X, dtype=object).copy()))
         ctx.fact(len(cg.functionList) == n0, 'replay does not grow the graph')
+    # what earlier replays returned, and the inputs they were given, are still intact after the later ones
+    for k, kind, out, want, xin, xwant in handed_out:
+        ctx.eq(value_of(out, algopy), want, 'result of replay %d %s still intact after the later replays' % (k, kind))
+        ctx.eq(value_of(xin, algopy), xwant, 'input of replay %d %s unchanged' % (k, kind))
+    ctx.eq(value_of(xr, algopy), np.array(plain(R) if rec == 'nd' else R, dtype=object), 'recording input unchanged by the replays')
 
 
 def h_two_inputs(ctx, rec, replay):
@@ -322,7 +329,7 @@ def units(tier, seed):
     opts = {'property': PROP, 'path_budget': 1000, 'validate_paths': 2}
     U11, U22, U32, U13 = ('utpm', 1, 1), ('utpm', 2, 2), ('utpm', 3, 2), ('utpm', 1, 3)
     if tier == 'quick':
-        combos = [('nd', [U22, 'nd']), (U11, ['nd', U32]), (U22, [U13])]
+        combos = [('nd', [U22, 'nd']), (U11, ['nd', U32]), (U22, [U13]), ('nd', ['nd', 'nd'])]
     else:
         combos = [('nd', [U22, 'nd', U11]), (U11, ['nd', U32, U22]), (U22, [U13, 'nd', U22]), (U32, [U11, U32]), ('nd', ['nd', 'nd', U32])]
     progs = [p for p in PR.catalogue() if not ('slow' in p.tags) and not any(t.startswith('fac:') for t in p.tags)]
